@@ -107,6 +107,29 @@ fn conventional_authority(a: &[u8]) -> bool {
         && host.split(|&c| c == b'.').all(|l| !l.is_empty() && l.iter().all(|&c| c.is_ascii_alphanumeric() || c == b'-'))
 }
 
+/// A segment that spells "." or ".." with one or both dots percent-encoded (RFC 3986
+/// 6.2.2.2 treats it as the dot segment): acceptance is not demanded.
+fn has_encoded_dot_segment(text: &[u8]) -> bool {
+    text.split(|&c| c == b'/').any(|seg| {
+        if !seg.contains(&b'%') {
+            return false;
+        }
+        let mut rest = seg;
+        let mut dots = 0;
+        while !rest.is_empty() {
+            if rest[0] == b'.' {
+                rest = &rest[1..];
+            } else if rest.len() >= 3 && rest[0] == b'%' && rest[1] == b'2' && (rest[2] == b'e' || rest[2] == b'E') {
+                rest = &rest[3..];
+            } else {
+                return false;
+            }
+            dots += 1;
+        }
+        dots == 1 || dots == 2
+    })
+}
+
 /// No empty segment except the last, no dot segment.
 fn path_ok(path: &[u8]) -> bool {
     if path.is_empty() {
@@ -146,7 +169,7 @@ fn model_rsync(s: &[u8]) -> Verdict {
     if is_dot(&s[ae + 1..me]) || !path_ok(&s[me + 1..]) {
         return Verdict::Reject;
     }
-    if !s.iter().all(|&b| documented_ok(b)) || !conventional_authority(&s[8..ae]) {
+    if !s.iter().all(|&b| documented_ok(b)) || !conventional_authority(&s[8..ae]) || has_encoded_dot_segment(&s[ae..]) {
         return Verdict::Free;
     }
     Verdict::Accept
@@ -157,7 +180,7 @@ fn model_https(s: &[u8]) -> Verdict {
         return Verdict::Reject;
     }
     let Some(ae) = split_https(s) else { return Verdict::Reject };
-    if !s.iter().all(|&b| documented_ok(b)) || !conventional_authority(&s[8..ae]) {
+    if !s.iter().all(|&b| documented_ok(b)) || !conventional_authority(&s[8..ae]) || has_encoded_dot_segment(&s[ae..]) {
         return Verdict::Free;
     }
     Verdict::Accept
@@ -170,7 +193,7 @@ fn model_rsync_arg(arg: &[u8]) -> Verdict {
     if arg.iter().any(|&b| forbidden(b)) || !path_ok(arg) {
         return Verdict::Reject;
     }
-    if !arg.iter().all(|&b| documented_ok(b)) {
+    if !arg.iter().all(|&b| documented_ok(b)) || has_encoded_dot_segment(arg) {
         return Verdict::Free;
     }
     Verdict::Accept
@@ -180,7 +203,7 @@ fn model_https_arg(arg: &[u8]) -> Verdict {
     if arg.iter().any(|&b| forbidden(b)) {
         return Verdict::Reject;
     }
-    if !arg.iter().all(|&b| documented_ok(b)) {
+    if !arg.iter().all(|&b| documented_ok(b)) || has_encoded_dot_segment(arg) {
         return Verdict::Free;
     }
     Verdict::Accept
